@@ -37,6 +37,16 @@ def make_case(rng, i):
     case = F.basic_case(rng, PROFILE, hist=(5, 40), drivers=("sync", "inloop"), p_unknown=0.1,
                         async_modes=("none", "none", "none", "all", "half", "one"), p_style=0.3)
     spec = case["scenario"].spec
+    # some method guards answer per candidate (they look at the `target` they are asked about): the same
+    # guard shared by several candidates of one event is evaluated afresh for each of them
+    from vmon.rec import FALSY, TRUTHY
+    shared = [n for n, g in spec["guards"].items() if g["kind"] == "method" and g["providers"] == ["sm"]]
+    sids = [s_["id"] for s_ in spec["states"]]
+    for st in case["scenario"].steps:
+        if st.get("op") == "send" and st.get("val"):
+            for n in shared:
+                if rng.random() < 0.15 and st["val"].get(n) != "raise":
+                    st["val"][n] = {"by_target": {sid: (rng.choice(TRUTHY) if rng.random() < 0.5 else rng.choice(FALSY)) for sid in sids}}
     if not spec.get("style"):
         for g in spec["guards"].values():
             if g["providers"] == ["sm"] and g["kind"] == "method" and not g.get("async") and rng.random() < 0.15:
